@@ -192,6 +192,38 @@ func scenarios() []*sched.Scenario {
 		b.check(final, false)
 		c.check(final, true)
 	}})
+	// OnUpdateWithContext: inner subscriptions made through withinContext live until the next update or the unsubscribe;
+	// once the unsubscribe call has returned, nothing set up by it may still be subscribed or start
+	out = append(out, &sched.Scenario{Name: "variable/onupdatewithcontext-unsubscribe-vs-set", Run: func() {
+		v := reactive.NewVariable[int]()
+		other := reactive.NewVariable[int]()
+		setups, teardowns, unsubReturned, innerAfter := 0, 0, false, 0
+		v.Set(1)
+		u := v.OnUpdateWithContext(func(_, _ int, within func(func() func())) {
+			within(func() func() {
+				setups++
+				inner := other.OnUpdate(func(_, _ int) {
+					if unsubReturned {
+						innerAfter++
+					}
+				})
+				return func() { inner(); teardowns++ }
+			})
+		})
+		vrt.Par(
+			func() { u(); unsubReturned = true },
+			func() { v.Set(2) },
+		)
+		other.Set(5)
+		vrt.Quiesce()
+		vrt.Observe("final", setups, teardowns, innerAfter)
+		if setups != teardowns {
+			vrt.Fail("context-leak", "OnUpdateWithContext set up %d inner subscriptions but tore down %d after its unsubscribe returned", setups, teardowns)
+		}
+		if innerAfter != 0 {
+			vrt.Fail("callback-after-unsubscribe|inner", "an inner subscription created within the context was still invoked after the unsubscribe call had returned")
+		}
+	}})
 	out = append(out, &sched.Scenario{Name: "variable/zero-value-trigger+same-value-set", Run: func() {
 		v := reactive.NewVariable[int]()
 		a := &varSub{name: "A"}
